@@ -233,6 +233,43 @@ pub fn load(image: &[u8], wrapper: Wrapper, rp: &ReaderPlan, limit: Option<u64>,
             rstats = Some(s.finish());
             r
         }
+        Wrapper::Fifo => {
+            // A real OS pipe: the kernel decides the read sizes (short reads whenever the writer
+            // is behind), the writer's close is the end of the stream. Event sizes are up to the
+            // OS; the result must not depend on them.
+            let path = tmp_path("fifo");
+            let _ = std::fs::remove_file(&path);
+            let cpath = std::ffi::CString::new(path.to_string_lossy().as_bytes()).unwrap();
+            let rc = unsafe { libc::mkfifo(cpath.as_ptr(), 0o600) };
+            assert!(rc == 0, "harness: mkfifo failed");
+            let sizes: Vec<usize> = if rp.sizes.is_empty() { vec![usize::MAX] } else { rp.sizes.iter().map(|s| (*s).max(1) as usize).collect() };
+            let r = std::thread::scope(|sc| {
+                let p2 = path.clone();
+                sc.spawn(move || {
+                    use std::io::Write;
+                    let _pz = alloc::pause();
+                    if let Ok(mut w) = std::fs::OpenOptions::new().write(true).open(&p2) {
+                        let mut off = 0;
+                        let mut k = 0;
+                        while off < image.len() {
+                            let n = sizes[k % sizes.len()].min(image.len() - off);
+                            k += 1;
+                            if w.write_all(&image[off..off + n]).is_err() {
+                                break; // reader went away (load already failed): EPIPE
+                            }
+                            let _ = w.flush();
+                            off += n;
+                            if k % 7 == 0 {
+                                std::thread::yield_now();
+                            }
+                        }
+                    }
+                });
+                alloc::tracked(limit, None, || AsepriteFile::read_file(&path))
+            });
+            let _ = std::fs::remove_file(&path);
+            r
+        }
         Wrapper::File | Wrapper::ReadFile => {
             let path = tmp_path("in");
             std::fs::write(&path, image).expect("harness: cannot write temp file");
